@@ -14,6 +14,7 @@ import Tranp.Lemmas.ProcedureExpand
 import Tranp.Lemmas.PropKeys
 import Tranp.Lemmas.ProcedureHistory
 import Tranp.Generated.ProcedureState
+import Tranp.Generated.NodeClasses
 
 namespace Tranp.C09
 open Tranp Tranp.Procedure
@@ -415,12 +416,41 @@ theorem exec_history_reference {R : Type} (fuel : Nat) (s : PState R) (cs : List
 /-- non-vacuity: register, run a failing tree (stale frame), re-register, remove a handler, run again -/
 example :
     let boom : Handler Nat := fun _ _ => .fail (.other ['V'])
-    let cs : List (Call Nat) := [.on "on_fallback".toList 1 sumH, .on ("on_".toList ++ ['l']) 2 boom, .exec good,
-      .off ("on_".toList ++ ['x']) 9, .off ("on_".toList ++ ['l']) 2, .on "on_fallback".toList 1 idH]
+    let cs : List (Call Nat) := [.on "on_fallback".toList 1 (.plain sumH), .on ("on_".toList ++ ['l']) 2 (.plain boom), .exec good,
+      .off ("on_".toList ++ ['x']) 9, .off ("on_".toList ++ ['l']) 2, .on "on_fallback".toList 1 (.plain idH)]
     (steps 1 {} cs).stacks = [[]] ∧
       (step 1 (steps 1 {} cs) (.exec good)).2 = (Out.value 6321 : Out Nat) ∧
       (emitterAfter ([] : Emitter Nat) cs).map (fun e => (e.1, e.2.map (·.1))) = [("on_fallback".toList, [1])] := by
   refine ⟨by rfl, by rfl, by rfl⟩
+
+/-- Middleware chaining (`next`): the newest callback of an action is called; a plain one shadows the rest of the chain, one
+    that declares `next` gets "the rest of the chain on the same event" and running it is running that program and
+    continuing with its result — in the machine (`runProg`) and in the reference (`denoteProg`) alike, so `event`, `final`,
+    `exec_history_independent` … hold for chained registrations as they are (the composed handler is one `Handler`). -/
+theorem chain_semantics {R : Type} (i : Nat) (h : Handler R) (k : PNode → Event R → R → HProg R)
+    (rest : List (Nat × CB R)) (n : PNode) (ev : Event R)
+    (nested : St R → PNode → St R × Except Err R) (dn : PNode → Except Err R) (st : St R) :
+    composeCB ((i, .plain h) :: rest) n ev = h n ev ∧
+    composeCB ((i, .chained fun n ev nxt => nxt.bind (k n ev)) :: rest) n ev = (composeCB rest n ev).bind (k n ev) ∧
+    runProg nested st ((composeCB rest n ev).bind (k n ev)) =
+      (match runProg nested st (composeCB rest n ev) with
+       | (st', .ok r) => runProg nested st' (k n ev r)
+       | (st', .error e) => (st', .error e)) ∧
+    denoteProg dn ((composeCB rest n ev).bind (k n ev)) =
+      (match denoteProg dn (composeCB rest n ev) with
+       | .ok r => denoteProg dn (k n ev r)
+       | .error e => .error e) :=
+  ⟨rfl, rfl, runProg_bind nested _ _ st, denoteProg_bind dn _ _⟩
+
+/-- non-vacuity: `sumH` registered first, then a chained handler that adds 1000 to what the rest of the chain returns, then
+    one that calls `next` past the end of its chain (IndexError inside the handler → Errors.Fatal) -/
+example :
+    let plus : CB Nat := .chained fun _ _ nxt => nxt.bind fun r => .ret (r + 1000)
+    let cs : List (Call Nat) := [.on "on_fallback".toList 1 (.plain sumH), .on "on_fallback".toList 2 plus,
+      .on ("on_".toList ++ ['m']) 3 plus]
+    (step 1 (steps 1 {} cs) (.exec (leaf 7))).2 = (Out.value 1007 : Out Nat) ∧
+    (step 1 (steps 1 {} cs) (.exec good)).2 = (Out.raised .fatal : Out Nat) := by
+  refine ⟨by rfl, by rfl⟩
 
 open Tranp.Generated in
 /-- The state of a `Procedure` instance, as read from `procedure.py` on this run, is what the model carries: `__stacks`
@@ -437,5 +467,66 @@ theorem instance_state_is_modelled :
     ProcedureState.makeEventCount = .lenGetattrAtEventTime ∧
     ProcedureState.execFlatten = .rootProceduralOnEveryExec := by
   refine ⟨by decide, by decide, by decide, by decide⟩
+
+/-! ### the hypotheses discharged for the shipped node definitions (table generated from `definition/*.py` on every run) -/
+
+open Tranp.Generated Tranp.PropKeys in
+/-- no node class of tranp shares its `__name__` with a class of its own MRO -/
+theorem shipped_names_distinct : NamesDistinctOnMro NodeClasses.table :=
+  namesDistinct_of_B _ (by decide +kernel)
+
+open Tranp.Generated in
+/-- `prop_keys()` of the shipped classes is history-independent, outright: every order and repetition of calls on any of the
+    126 classes answers with the cache-free MRO computation -/
+theorem shipped_prop_keys_history_independent (qs : List Nat) :
+    (PropKeys.run NodeClasses.table [] qs).2 = qs.map NodeClasses.table.pure :=
+  prop_keys_history_independent _ shipped_names_distinct qs
+
+open Tranp.Generated Tranp.PropKeys in
+/-- no shipped class repeats an expandable key along its MRO -/
+theorem shipped_keys_nodup (c : Nat) (hc : c < NodeClasses.table.classes.length) : (NodeClasses.table.pure c).Nodup :=
+  keysNodup_of_B _ (by decide +kernel) c hc
+
+open Tranp.Generated in
+/-- the `ITerminal` classes declare no expandable property -/
+theorem shipped_terminals_declare_nothing : ∀ c ∈ NodeClasses.terminals, NodeClasses.table.pure c = [] := by
+  decide +kernel
+
+open Tranp.Generated in
+/-- an instance of a shipped class: its property keys are the class's `prop_keys()`, and a node that refuses expansion
+    (`ITerminal`, or `Terminal` on a comparison-operator tag) belongs to a class without expandable properties -/
+def ShippedInstance (n : PNode) : Prop :=
+  ∃ c, c < NodeClasses.table.classes.length ∧ n.props.map PProp.key = NodeClasses.table.pure c ∧
+    (n.terminal = true → NodeClasses.table.pure c = [])
+
+/-- For trees of shipped node classes `KeyConsistent` (hypothesis of `wf_necessary`) and the clauses 1 and 3 of `WFNode` hold
+    by the class table; what remains of `WF` is clause 2 (nothing under a node whose properties yield nothing — see
+    `under_clause_iff`) and clause 4 (annotation = run-time shape), the two the harness checks on every exported tree. -/
+theorem shipped_wf_reduces (root : PNode) (hs : ∀ m ∈ visited root, ShippedInstance m)
+    (h2 : ∀ m ∈ visited root, m.terminal = false → (propExpand m.props).isEmpty = true → m.under.isEmpty = true)
+    (h4 : ∀ m ∈ visited root, ∀ p ∈ m.props, p.annList = p.isMany) :
+    WF root ∧ ∀ m ∈ visited root, KeyConsistent m := by
+  have hnd : ∀ m ∈ visited root, (m.props.map PProp.key).Nodup := by
+    intro m hm
+    obtain ⟨c, hc, hk, _⟩ := hs m hm
+    rw [hk]; exact shipped_keys_nodup c hc
+  refine ⟨fun m hm => ⟨?_, h2 m hm, ?_, h4 m hm⟩, fun m hm => keyConsistent_of_nodup m (hnd m hm)⟩
+  · intro ht
+    obtain ⟨c, _, hk, hterm⟩ := hs m hm
+    have : m.props.map PProp.key = [] := by rw [hk, hterm ht]
+    have : m.props = [] := by simpa using this
+    simp [this]
+  · intro p hp hcnt
+    have := PropKeys.count_le_one_of_nodup _ (hnd m hm) p.key
+    omega
+
+open Tranp.Generated in
+/-- non-vacuity: `If` declares condition / statements / else_ifs / else_clause (two of them lists), `Var` is a terminal -/
+example :
+    (NodeClasses.table.classes.map (·.name)).idxOf "If".toList < NodeClasses.table.classes.length ∧
+    NodeClasses.table.pure ((NodeClasses.table.classes.map (·.name)).idxOf "If".toList) =
+      ["condition".toList, "statements".toList, "else_ifs".toList, "else_clause".toList] ∧
+    (NodeClasses.table.classes.map (·.name)).idxOf "Var".toList ∈ NodeClasses.terminals := by
+  decide +kernel
 
 end Tranp.C09
